@@ -5,6 +5,7 @@ import DropletsVerif.Driver.C11
 import DropletsVerif.Driver.C10
 import DropletsVerif.Driver.C06
 import DropletsVerif.Driver.C02
+import DropletsVerif.Driver.C18
 
 open DV.Drv
 
@@ -15,6 +16,7 @@ def dispatch (line : String) : String :=
   | "c10" :: args => handleC10 args
   | "c06" :: args => handleC06 args
   | "c02" :: args => handleC02 args
+  | "c18" :: args => handleC18 args
   | _ => "bad-op"
 
 partial def loop (h : IO.FS.Stream) (out : IO.FS.Stream) : IO Unit := do
